@@ -101,6 +101,81 @@ CACHING_DECORATORS = {
 }
 
 
+INT_STR_LIMIT = 10 ** 4300  # sys.get_int_max_str_digits() default
+
+
+def int_to_text(interp, v, state, node, what):
+    """Converting an int to decimal text (str, repr, '{}', '%s', '%d',
+    f-string) raises ValueError beyond 4300 digits (CPython >= 3.11).  The
+    value must be known to be an int and not known to be small."""
+    if isinstance(v, (Ref, tuple)) or not isinstance(v, Sym):
+        return
+    t = state.kn.type_of(v)
+    if t is None or not t <= {'int'}:
+        return
+    lo, hi = state.kn.lin_interval(v)
+    if lo is None or hi is None:
+        iv = T.interval(v, state.kn)
+        lo = iv[0] if lo is None else lo
+        hi = iv[1] if hi is None else hi
+    if lo is not None and hi is not None and -INT_STR_LIMIT < lo and \
+            hi < INT_STR_LIMIT:
+        return
+    interp.raise_pending(state, E('builtins.ValueError'), node,
+                         '%s of an int of unbounded size exceeds the '
+                         'integer string conversion limit' % what)
+
+
+def _format_fields(template):
+    """[(positional index | name, conversion is decimal text?)] of a
+    str.format template; None when it cannot be parsed."""
+    import string
+    out = []
+    auto = 0
+    try:
+        for _lit, field, spec, conv in string.Formatter().parse(template):
+            if field is None:
+                continue
+            key = field.split('.')[0].split('[')[0]
+            if key == '':
+                key = auto
+                auto += 1
+            elif key.isdigit():
+                key = int(key)
+            plain = field == str(key) or field == ''
+            binary = bool(spec) and spec[-1:] in 'xXob' and conv is None
+            out.append((key, plain and not binary))
+    except ValueError:
+        return None
+    return out
+
+
+def format_conversions(interp, template, args, kwargs, state, node):
+    fields = _format_fields(template)
+    if fields is None:
+        return
+    for key, decimal_text in fields:
+        if not decimal_text:
+            continue
+        v = None
+        if isinstance(key, int) and key < len(args):
+            v = args[key]
+        elif isinstance(key, str):
+            v = kwargs.get(key)
+        if v is not None:
+            int_to_text(interp, v, state, node, 'str.format')
+
+
+def percent_conversions(interp, template, operand, state, node):
+    vals = list(operand) if isinstance(operand, tuple) else [operand]
+    specs = _re.findall(r'%(?:\([^)]*\))?[#0\- +]*(?:\*|\d+)?'
+                        r'(?:\.(?:\*|\d+))?[hlL]?([a-zA-Z%])', template)
+    specs = [c for c in specs if c != '%']
+    for c, v in zip(specs, vals):
+        if c in 'sdirau':
+            int_to_text(interp, v, state, node, "'%%%s' formatting" % c)
+
+
 def decorator_path(prog, mi, d):
     import ast as _ast
     node = d.func if isinstance(d, _ast.Call) else d
@@ -513,6 +588,8 @@ def _b_str(interp, args, kwargs, state, node):
         return x
     if T.is_const(x) and len(args) == 1 and not isinstance(x, (float,)):
         return str(x)
+    if len(args) == 1:
+        int_to_text(interp, x, state, node, 'str()')
     if (len(args) >= 2 or 'encoding' in kwargs or 'errors' in kwargs) and \
             isinstance(x, Sym):
         # str(b, encoding[, errors]) is b.decode(encoding[, errors])
@@ -1084,6 +1161,7 @@ def call_method(interp, recv, name, args, kwargs, state, node):
                     return recv.format(*args, **kwargs)
                 except (IndexError, KeyError, ValueError):
                     pass
+            format_conversions(interp, recv, args, kwargs, state, node)
             return Sym('format', recv, tuple(_t(a) for a in args),
                        tuple(sorted((k, _t(v)) for k, v in kwargs.items())))
         if name in _PURE_CONST_METHODS and all(T.is_const(a) for a in args) \
@@ -1504,6 +1582,7 @@ def binop(interp, op, a, b, state, node):
                 return interp.alloc(state, _i().ListObj(
                     oa.items + ob.items, oa.more or ob.more))
         if name == 'mod' and isinstance(a, str):
+            percent_conversions(interp, a, b, state, node)
             return Sym('format', a, _t(b))
         return Sym(name, _t(a), _t(b))
     if T.is_const(a) and T.is_const(b):
@@ -1582,6 +1661,7 @@ def binop(interp, op, a, b, state, node):
                                  'unsupported operand type(s) for *')
         return T.mul(a, b)
     if name == 'mod' and isinstance(a, str):
+        percent_conversions(interp, a, b, state, node)
         return Sym('format', a, _t(b))
     if name in ('floordiv', 'mod') and known_int and isinstance(b, int) \
             and not isinstance(b, bool) and b > 0 and b & (b - 1) == 0:
